@@ -2517,6 +2517,12 @@ def e_display_methods(c):
         _bag(c, b, 'background_obj')
         c.call(b.plot_meshes, ax=_ax(), outlines=bool(rng.integers(0, 2)))
         _roundtrips(c, b)
+    from photutils.aperture import ApertureMask
+    am = c.call(ApertureMask, c.plain(rng.uniform(0, 1, (3, 4)), 'mask_weights'), BoundingBox(1, 5, 2, 5))
+    if am is not None:
+        c.call(am.cutout, c.data)
+        c.call(am.multiply, c.data)
+        _roundtrips(c, am)
     ap = c.call(CircularAperture, c.plain(c.xy, 'positions'), 4.0)
     if ap is not None:
         st = c.call(ApertureStats, c.data, ap, error=c.error, mask=c.mask)
